@@ -18,6 +18,7 @@ import ClvmProofs.Lemmas.Interp.Flags
 import ClvmProofs.Lemmas.Interp.FlagsDispatch
 import ClvmProofs.Lemmas.Interp.FlagsWitness
 import ClvmProofs.Lemmas.Interp.LiftRestrict
+import ClvmProofs.Lemmas.Interp.LiftCrypto
 
 namespace Clvm.Props.C07
 open Clvm Clvm.Interp
@@ -98,5 +99,29 @@ theorem whole_program_relaxed_bls (cfg : Cfg) (extra : String → Option OpFn)
     (h : runProgram cfg (chiaDialect cfg extra F) fuel c0 prog env m = some (.ok r)) :
     runProgram cfg (chiaDialect cfg extra (F ||| Gen.FLAG_RELAXED_BLS)) fuel c0 prog env m = some (.ok r) :=
   eval_relaxed cfg extra hextra F fuel c0 prog env m r h
+
+
+/-! ### The dialect the crate ships (all operators, no hypothesis on operators left) -/
+
+theorem chia_restrict_partial (cfg : Cfg) (F R : Nat) (hR : R &&& restrictionBits = R)
+    (hK : hasFlag R Gen.FLAG_CANONICAL_INTS = false ∨ hasFlag (F ||| R) Gen.FLAG_NO_UNKNOWN_OPS = true)
+    (fuel : Nat) (c0 : Ctr) (prog env : Val) (m : Nat) (r : Nat × Val × Ctr)
+    (h : runProgram cfg (chiaDialect cfg cryptoExtra (F ||| R)) fuel c0 prog env m = some (.ok r)) :
+    runProgram cfg (chiaDialect cfg cryptoExtra F) fuel c0 prog env m = some (.ok r) :=
+  crypto_eval_restrict_partial cfg F R hR hK fuel c0 prog env m r h
+
+/-- whatever succeeds in mempool mode succeeds identically (result, cost, counters) in consensus mode -/
+theorem chia_mempool_implies_consensus (cfg : Cfg) (F : Nat)
+    (fuel : Nat) (c0 : Ctr) (prog env : Val) (m : Nat) (r : Nat × Val × Ctr)
+    (h : runProgram cfg (chiaDialect cfg cryptoExtra (F ||| Gen.MEMPOOL_MODE)) fuel c0 prog env m = some (.ok r)) :
+    runProgram cfg (chiaDialect cfg cryptoExtra F) fuel c0 prog env m = some (.ok r) :=
+  crypto_mempool_implies_consensus cfg F fuel c0 prog env m r h
+
+/-- RELAXED_BLS only adds successes -/
+theorem chia_relaxed_bls (cfg : Cfg) (F : Nat)
+    (fuel : Nat) (c0 : Ctr) (prog env : Val) (m : Nat) (r : Nat × Val × Ctr)
+    (h : runProgram cfg (chiaDialect cfg cryptoExtra F) fuel c0 prog env m = some (.ok r)) :
+    runProgram cfg (chiaDialect cfg cryptoExtra (F ||| Gen.FLAG_RELAXED_BLS)) fuel c0 prog env m = some (.ok r) :=
+  crypto_eval_relaxed cfg F fuel c0 prog env m r h
 
 end Clvm.Props.C07
